@@ -36,6 +36,8 @@ package main
 //            ((k-1-10)*p - eps on the sorted times), eps = dispatch latency of one probe <= slack.
 
 import (
+	"compress/gzip"
+	"bytes"
 	"strconv"
 	"bufio"
 	"crypto/ecdsa"
@@ -110,7 +112,7 @@ func newAppFarm(cmd, proto string, tlsCfg *tls.Config, variant int, targets []ap
 	f := &appFarm{cmd: cmd, proto: proto, tlsCfg: tlsCfg, variant: variant, first: map[string]int64{},
 		primary: map[string]int{}, conns: map[string]int{}, hold: make(chan struct{})}
 	for _, t := range targets {
-		if t.beh == "refused" || t.beh == "drop" {
+		if t.beh == "refused" || t.beh == "drop" || t.beh == "badline" {
 			continue
 		}
 		l, err := net.Listen("tcp4", t.key())
@@ -162,6 +164,11 @@ func (f *appFarm) handle(conn net.Conn, t appTarget) {
 	defer conn.Close()
 	conn.SetDeadline(time.Now().Add(40 * time.Second))
 	k := t.key()
+	if t.beh == "slowok" {
+		// a loaded server: the right answer, a few hundred milliseconds late (well within every timeout used)
+		time.Sleep(250 * time.Millisecond)
+		t.beh = "ok"
+	}
 	if f.cmd == "socks" {
 		buf := make([]byte, 3)
 		if _, err := io.ReadFull(conn, buf); err != nil {
@@ -206,6 +213,15 @@ func (f *appFarm) handle(conn net.Conn, t appTarget) {
 	}
 	reply := func(status int, ctype, body string, hdr ...string) {
 		var sb strings.Builder
+		if f.variant%3 == 0 && strings.Contains(req.Header.Get("Accept-Encoding"), "gzip") && len(body) > 0 {
+			// a server with http compression on (Elasticsearch's default, any reverse proxy): it compresses when asked
+			var zb bytes.Buffer
+			zw := gzip.NewWriter(&zb)
+			zw.Write([]byte(body))
+			zw.Close()
+			body = zb.String()
+			hdr = append(hdr, "Content-Encoding: gzip", "Vary: Accept-Encoding")
+		}
 		fmt.Fprintf(&sb, "HTTP/1.1 %d %s\r\nContent-Type: %s\r\nContent-Length: %d\r\nConnection: close\r\n", status, http.StatusText(status), ctype, len(body))
 		for _, h := range hdr {
 			sb.WriteString(h + "\r\n")
@@ -402,7 +418,15 @@ func appArgs(rng interface{ Intn(int) int }, cdir string, s appSpec) []string {
 		args = append(args, "-f", p)
 	case "pairs":
 		var sb strings.Builder
-		for _, t := range s.targets {
+		for i, t := range s.targets {
+			if t.beh == "badline" {
+				// names no target: one error record, and the scan goes on with the next line
+				// (bad address, port outside 1..65535, a missing field; a line that is not JSON at all may end the
+				// reading of the list — C13 allows that — and is left to component `gen`)
+				sb.WriteString([]string{"{\"ip\":\"10.0.0.256\",\"port\":80}", "{\"ip\":\"127.0.0.1\",\"port\":70000}", "{\"ip\":\"abc\",\"port\":80}",
+					"{\"ip\":\"\",\"port\":80}", "{\"ip\":\"127.0.0.1\",\"port\":0}", "{\"port\":80}", "{\"ip\":\"127.0.0.1\"}", "{\"ip\":\"127.0.0.1\",\"port\":65536}"}[i%8] + "\n")
+				continue
+			}
 			fmt.Fprintf(&sb, "{\"ip\":\"%s\",\"port\":%d}\n", v4Text(t.ip), t.port)
 		}
 		p := filepath.Join(cdir, "pairs.jsonl")
@@ -492,7 +516,7 @@ func e2eAppComponent(r *hx.Run) {
 			kindText += fmt.Sprintf("/nofile+%d", opt.nofile-appMinNofile())
 		}
 		var tgt appTarget
-		if tc.kind == "syndrop" {
+		if strings.HasPrefix(tc.kind, "syndrop") {
 			tgt = appTarget{ip: dropBase + loop%10, port: 1024 + int(loop%50000), beh: "drop"}
 		} else {
 			tgt = appTarget{ip: loop, port: 20000 + int(loop%20000), beh: "tarpit"}
@@ -505,7 +529,20 @@ func e2eAppComponent(r *hx.Run) {
 			args = append(args, "-t", fmt.Sprintf("%dms", tc.tMs))
 		}
 		tgts := []appTarget{tgt}
-		if opt.nofile > 0 {
+		if strings.HasSuffix(tc.kind, "/many") {
+			// a thousand filtered hosts at once, a worker for each: every probe still takes its own k*T, they do not
+			// queue up behind each other
+			tc.kind = strings.TrimSuffix(tc.kind, "/many")
+			kindText = tc.kind + "/many"
+			var sb strings.Builder
+			for i := 0; i < 1000; i++ {
+				fmt.Fprintf(&sb, "{\"ip\":\"%s\",\"port\":%d}\n", v4Text(dropBase+uint32(i%10)), 2000+i+int(loop%30000))
+			}
+			pf := filepath.Join(nextDir(), "many.jsonl")
+			os.MkdirAll(filepath.Dir(pf), 0o755)
+			os.WriteFile(pf, []byte(sb.String()), 0o644)
+			args = append(args, "-w", "1000", "-f", pf)
+		} else if opt.nofile > 0 {
 			// six such targets, taken up by six workers at once: the probes that get no descriptor fail, they do not
 			// queue up behind the ones that hold one (each for its full k*T)
 			for i := 1; i < 6; i++ {
@@ -580,8 +617,11 @@ func e2eAppComponent(r *hx.Run) {
 		mode := sp.mode
 		tMs := 500 + 100*rng.Intn(3)
 		workers := []int{5, 16, 100}[rng.Intn(3)]
+		if strings.Contains(extra, "/bignet") {
+			tMs, workers = 800, 100
+		}
 		args := []string{cb.cmd, "--json", "-t", fmt.Sprintf("%dms", tMs), "-w", fmt.Sprint(workers)}
-		if rng.Intn(3) == 0 {
+		if rng.Intn(3) == 0 && !strings.Contains(extra, "/bignet") {
 			args = []string{cb.cmd, "--json", "-t", fmt.Sprintf("%dms", tMs)} // default worker count
 			workers = 0
 		}
@@ -640,7 +680,7 @@ func e2eAppComponent(r *hx.Run) {
 			}
 			done := map[string]bool{}
 			for _, t := range sp.targets {
-				if !t.excl && t.beh == "ok" && !done[t.key()] {
+				if !t.excl && (t.beh == "ok" || t.beh == "slowok") && !done[t.key()] {
 					done[t.key()] = true
 					seen = append(seen, fmt.Sprintf("%s*%d", t.key(), farm.primary[t.key()]))
 				}
@@ -651,12 +691,21 @@ func e2eAppComponent(r *hx.Run) {
 				appErrorRecords(res.stderr), strings.Join(seen, ","), x)
 		}
 		var tl []string
+		nBad := 0
 		for _, t := range sp.targets {
+			if t.beh == "badline" {
+				nBad++
+				continue
+			}
 			e := "0"
 			if t.excl {
 				e = "1"
 			}
 			tl = append(tl, fmt.Sprintf("%s:%s:%s", t.key(), t.beh, e))
+		}
+		if nBad > 0 {
+			tl = append(tl, fmt.Sprintf("badlines*%d", nBad))
+			r.Count("with-bad-lines")
 		}
 		class := fmt.Sprintf("apprec/%s/%s/%s%s", cb.cmd, cb.proto, mode, extra)
 		if len(sp.exclude) > 0 {
@@ -732,6 +781,10 @@ func e2eAppComponent(r *hx.Run) {
 				for i := 0; i < 1+rng.Intn(2); i++ {
 					ts = append(ts, appTarget{ip: dropBase + uint32(rng.Intn(10)), port: 1 + rng.Intn(65000), beh: "drop"})
 				}
+				// lines that name no target at all, between the good ones: an error record each, and the scan goes on
+				for i := 0; i < rng.Intn(4); i++ {
+					ts = append(ts, appTarget{beh: "badline"})
+				}
 				rngShuffle(rng, ts)
 				sp.targets, sp.ports = ts, nil
 			}
@@ -794,21 +847,96 @@ func e2eAppComponent(r *hx.Run) {
 		}
 	}
 
+	// a subnet of thousands of addresses, nothing listening on most of them, a few servers that take their time: the
+	// records name THOSE servers (whatever the generator did with its address buffers in the meantime)
+	nBig := 1
+	if thorough {
+		nBig = 4
+	}
+	for i := 0; i < nBig; i++ {
+		cb := combos[(i*2)%len(combos)] // socks first
+		var sp appSpec
+		sp.mode, sp.ones = "net", 21
+		sp.base = uint32(127<<24) | uint32(1+rng.Intn(200))<<16 | uint32(rng.Intn(31)*8)<<8
+		port := 20000 + rng.Intn(20000)
+		sp.ports = []int{port}
+		slow := map[int]bool{}
+		for len(slow) < 6 {
+			slow[1+rng.Intn(2046)] = true
+		}
+		for a := 0; a < 2048; a++ {
+			beh := "refused"
+			if slow[a] {
+				beh = "slowok"
+			}
+			sp.targets = append(sp.targets, appTarget{ip: sp.base + uint32(a), port: port, beh: beh})
+		}
+		runRec(cb, sp, "/bignet")
+	}
+	// a target list that is mostly rubbish: tens of thousands of lines that name no target (more error records in a
+	// second than any "flood guard" lets through), a few good ones among them
+	nFlood := 1
+	if thorough {
+		nFlood = 3
+	}
+	for i := 0; i < nFlood; i++ {
+		cb := combos[rng.Intn(len(combos))]
+		var sp appSpec
+		sp.mode = "pairs"
+		loop := uint32(127<<24) | uint32(1+rng.Intn(200))<<16 | uint32(rng.Intn(250))<<8
+		n := 24000 + rng.Intn(8000)
+		for j := 0; j < n; j++ {
+			if j%8000 == 4000 {
+				sp.targets = append(sp.targets, appTarget{ip: loop | uint32(1+j/8000), port: 20000 + rng.Intn(20000), beh: "ok"})
+			}
+			sp.targets = append(sp.targets, appTarget{beh: "badline"})
+		}
+		runRec(cb, sp, "/errflood")
+	}
+
+	// C16 at the process boundary, where the logger's own failures count: stdout refuses every write (/dev/full: a
+	// full disk behind `> results.txt`), text mode; the scan still runs to its end and waits the exit delay
+	nDelay := 2
+	if thorough {
+		nDelay = 8
+	}
+	for i := 0; i < nDelay; i++ {
+		cb := combos[(i*2)%len(combos)]
+		loop := uint32(127<<24) | uint32(1+rng.Intn(200))<<16 | uint32(rng.Intn(250))<<8 | uint32(1+rng.Intn(200))
+		port := 20000 + rng.Intn(20000)
+		tgts := []appTarget{{ip: loop, port: port, beh: "ok"}, {ip: loop, port: port + 1, beh: "ok"}, {ip: loop, port: port + 2, beh: "refused"}}
+		exitMs := 500 + 100*rng.Intn(4)
+		args := []string{cb.cmd, "-t", "400ms", "--exit-delay", fmt.Sprintf("%dms", exitMs)}
+		if cb.proto == "https" {
+			args = append(args, "--proto", "https")
+		}
+		args = append(args, "-p", fmt.Sprintf("%d-%d", port, port+2), v4Text(loop))
+		farm := newAppFarm(cb.cmd, cb.proto, tlsCfg, 1, tgts)
+		res := runSXOpt(sxOpt{stdoutPath: "/dev/full"}, nil, 30*time.Second, args...)
+		farm.close()
+		obs := fmt.Sprintf("us=%d;exit=%d", res.dur.Microseconds(), res.exit)
+		if res.timedOut {
+			obs = "TIMEOUT"
+		}
+		r.Count("appdelay:" + cb.cmd)
+		r.Case(fmt.Sprintf("appdelay/%s/%s", cb.cmd, cb.proto), "appdelay", cb.cmd, fmt.Sprint(exitMs), obs)
+	}
+
 	// ------------------------------------------------------------ apptime, short timeouts
 	shortCases := []timeCase{{"socks", "", "syndrop", 0}, {"socks", "", "tarpit", 0}, {"elastic", "http", "tarpit", 0},
 		{"docker", "http", "tarpit", 0}, {"elastic", "https", "syndrop", 0}, {"docker", "https", "tarpit", 0}}
 	// … and with hardly any file descriptor to spare
-	shortCases = append(shortCases, timeCase{"socks", "", "tarpit/nofile0", 0}, timeCase{"socks", "", "tarpit/nofile1", 0},
+	shortCases = append(shortCases, timeCase{"socks", "", "syndrop/many", 0}, timeCase{"socks", "", "tarpit/nofile0", 0}, timeCase{"socks", "", "tarpit/nofile1", 0},
 		timeCase{"elastic", "http", "tarpit/nofile0", 0}, timeCase{"docker", "http", "tarpit/nofile0", 0})
 	nShort := len(shortCases)
 	if thorough {
-		nShort = 44
+		nShort = 46
 	}
 	for i := 0; i < nShort; i++ {
 		tc := shortCases[i%len(shortCases)]
 		if i >= len(shortCases) {
 			cb := combos[rng.Intn(len(combos))]
-			tc = timeCase{cmd: cb.cmd, proto: cb.proto, kind: []string{"syndrop", "tarpit", "tarpit/nofile0", "syndrop/nofile1", "tarpit/nofile2"}[rng.Intn(5)]}
+			tc = timeCase{cmd: cb.cmd, proto: cb.proto, kind: []string{"syndrop", "tarpit", "tarpit/nofile0", "syndrop/nofile1", "tarpit/nofile2", "syndrop/many"}[rng.Intn(6)]}
 		}
 		tc.tMs = 150 + 50*rng.Intn(4) // 150..300 ms: 4*T + slack stays well below the commands' defaults
 		out := runTime(tc, uint32(127<<24|251<<16)|uint32(1+rng.Intn(250))<<8|uint32(1+rng.Intn(250)))
